@@ -94,7 +94,7 @@ CAUGHT2 = {
  "C16/mutant2": [("C16", True)],
  "C17/mutant1": [("C17", True), ("C04", False)],
  "C17/mutant2": [("C17", True), ("C05", True)],
- "C18/mutant1": [("C18", False)],
+ "C18/mutant1": [("C18", True), ("C17", True)],
  "C18/mutant2": [("C18", True)],
  "C19/mutant1": [("C19", True)],
  "C19/mutant2": [("C19", True)],
@@ -126,7 +126,7 @@ NOTES2 = {
  "C15/mutant1": "shutdown/start-up race: theorem level only (lock_before_unlink, program_well_formed); no schedule is driven on the binary",
  "C15/mutant2": "shutdown/start-up race: theorem level only (program_well_formed)",
  "C16/mutant2": "first MISSED: nothing planted a file at the seed path before the write; theorem seed_written_fresh over the translated kernel and `seedpre` ops on the real file system",
- "C18/mutant1": "theorem level only (services_rearm: the re-arm of the gids timer is skipped on a path); the binary is not run for a full refresh interval",
+ "C18/mutant1": "first reported at theorem level only (services_rearm): C18's services stream ran the real _gids_map_update with stat() off; it now also runs it with an unchanged group file and reports the missing re-arm (C17's stream reports it too)",
  "C20/mutant2": "rename()-based key creation race: reported through the generated creation program (unlink/open flags) only; the race itself is not driven",
 }
 confirm = {}
